@@ -308,12 +308,69 @@ impl ServerEventMultiplexer {
         ensures r matches Some(ServerCommand::WorkerFaulted(i)) ==> known_idx(i),
     { unimplemented!() }
 }
+/// socket.rs MioListener: `id()` = the token it was bound under
 #[verifier::external_body]
-pub struct ServerBuilder { _p: () }
+pub struct MioListener { _p: () }
+impl MioListener { pub uninterp spec fn id(&self) -> int; }
+pub uninterp spec fn n_listeners() -> nat;
+#[verifier::external_body]
+pub struct String { _p: () }
+/// builder.rs ServerBuilder: the fields run_sync reads (all field names are checked in unit server_misc)
+pub struct ServerBuilder {
+    pub threads: usize,
+    pub factories: Vec<BoxedFactory>,
+    pub sockets: Vec<(usize, String, MioListener)>,
+    pub exit: bool,
+    pub listen_os_signals: bool,
+    pub cmd_rx: UnboundedReceiver<ServerCommand>,
+    pub worker_config: ServerWorkerConfig,
+}
+impl ServerBuilder {
+    /// what the ServerBuilder guarantees when the server is run (unit server_misc: `wf`): listener k carries token k and
+    /// was bound under it; at most 512 workers (more make `Availability` panic: documented)
+    pub open spec fn ready(&self) -> bool {
+        &&& self.sockets@.len() == n_listeners()
+        &&& forall|k: int| 0 <= k < self.sockets@.len() ==> (#[trigger] self.sockets@[k]).0 == k && self.sockets@[k].2.id() == k
+        &&& self.threads <= 512 && self.threads == worker_count()
+    }
+}
+pub struct Accept { }
+impl Accept {
+    /// accept.rs Accept::start (contract proved in unit accept)
+    #[verifier::external_body]
+    pub fn start(sockets: Vec<(usize, MioListener)>, builder: &ServerBuilder)
+        -> (r: io::Result<(WakerQueue, Vec<WorkerHandleServer>, thread::JoinHandle<()>)>)
+        requires sockets@.len() == n_listeners(),
+            forall|k: int| 0 <= k < sockets@.len() ==> (#[trigger] sockets@[k]).0 == k && sockets@[k].1.id() == k,
+            builder.threads <= 512,
+        ensures r matches Ok(p) ==> p.1@.len() == builder.threads && forall|i: int| 0 <= i < p.1@.len() ==> (#[trigger] p.1@[i]).idx == i,
+    { unimplemented!() }
+}
+impl Signals { #[verifier::external_body] pub fn new() -> (r: Signals) { unimplemented!() } }
+pub mod actix_rt2 { }
+pub struct TokioHandle { }
+pub mod tokio { pub mod runtime {
+    use vstd::prelude::*;
+    pub struct Handle { }
+    #[verifier::external_body] pub struct TryCurrentError { _p: () }
+    impl Handle { #[verifier::external_body] pub fn try_current() -> (r: Result<Handle, TryCurrentError>) { unimplemented!() } }
+} }
+pub mod mem {
+    use vstd::prelude::*;
+    #[verifier::external_body]
+    pub fn take<T>(v: &mut Vec<T>) -> (r: Vec<T>) ensures r@ == old(v)@, final(v)@.len() == 0 { unimplemented!() }
+}
+#[verifier::external_body]
+pub fn vec_take_first<T>(v: &mut Vec<T>) -> (r: T)
+    requires old(v)@.len() > 0,
+    ensures r == old(v)@[0], final(v)@ == old(v)@.subrange(1, old(v)@.len() as int),
+{ unimplemented!() }
 
 /// ASSUMPTION A-FAULT-IDX: a WorkerFaulted(idx) command names a worker the server has started (the accept thread sends
 /// the `idx` of a handle it holds, unit accept: `srv.faulted()`); `known_idx` is that set
-pub uninterp spec fn known_idx(i: usize) -> bool;
+/// `worker_count()`: the number of workers the server was started with (a ghost constant of the server)
+pub uninterp spec fn worker_count() -> usize;
+pub open spec fn known_idx(i: usize) -> bool { i < worker_count() }
 
 impl ServerInner {
     /// until the stop command has been handled the accept thread's join handle is there
@@ -331,12 +388,34 @@ impl ServerInner {
             && graceful == (signal is Term) && completion is None && force_system_stop,
 //@end
 
-    /// run_sync (starts accept thread and workers; not under contract): ASSUMED to return a fresh server state:
-    /// not stopping, with the accept thread's join handle
-    #[verifier::external_body]
-    pub fn run_sync(builder: ServerBuilder) -> (r: io::Result<(ServerInner, ServerEventMultiplexer)>)
-        ensures r matches Ok(p) ==> p.0.wf() && !p.0.stopping,
-    { unimplemented!() }
+//@extract file=actix-server/src/server.rs item="impl ServerInner / fn run_sync" ret=r props=C01,C06,C08 name=server::run_sync intended_panics closure_ty="(usize, MioListener)"
+//@replace pattern="for (_, name, lst) in &builder.sockets { }" rule=R1
+//@replace pattern="actix_rt::System::try_current()" rule=R15
+System::try_current()
+//@replace pattern="let mut r9_out = Vec::new();" rule=R9q
+let mut r9_out: Vec<(usize, MioListener)> = Vec::new();
+//@spec
+    requires builder.ready(),
+    ensures
+        // the command loop starts with the accept thread's join handle, not stopping, one handle per worker index,
+        // system-stop as configured   [C06,C08]
+        r matches Ok(p) ==> p.0.wf() && !p.0.stopping && p.0.system_stop == builder.exit,
+        r matches Ok(p) ==> (p.1.signal_fut is Some) == builder.listen_os_signals,   // [C06] signals are listened to unless disabled
+//@loop head="while r9_q.len() > 0"
+        invariant
+            r9_out@.len() + r9_q@.len() == all.len(), r9_q@ == all.subrange(r9_out@.len() as int, all.len() as int),
+            forall|k: int| 0 <= k < all.len() ==> (#[trigger] all[k]).0 == k && all[k].2.id() == k,
+            forall|k: int| 0 <= k < r9_out@.len() ==> (#[trigger] r9_out@[k]).0 == k && r9_out@[k].1.id() == k,
+        decreases r9_q@.len(),
+//@insert before="let sockets = ({"
+        let ghost all = builder.sockets@;
+//@insert before="let mux"
+        proof {
+            assert forall|i: usize| known_idx(i) implies worker_handles@.map_values(|h: WorkerHandleServer| h.idx).contains(i) by {
+                assert(worker_handles@.map_values(|h: WorkerHandleServer| h.idx)[i as int] == i);
+            }
+        }
+//@end
 
 #[verifier::exec_allows_no_decreases_clause]
 //@extract file=actix-server/src/server.rs item="impl ServerInner / fn run" ret=r props=C06 name=server::run
@@ -344,6 +423,7 @@ impl ServerInner {
     // the command loop: every command is handled in a state that satisfies handle_cmd's precondition -- in particular
     // no command is handled after a Stop (a second stop never reaches `accept_handle.take().unwrap()`), and the
     // future resolves with Ok as soon as a Stop has been handled or every command sender is gone   [C06]
+    requires builder.ready(),
     ensures r is Ok ==> true,
 //@replace pattern="this.handle_cmd(cmd).await;" rule=R22
 this.handle_cmd__awaited(cmd);
